@@ -1,17 +1,17 @@
 from . import ref
 
 
-def replay_loads(data, enc, hexbm):
+def replay_loads(data, enc, hexbm, cfg=None):
     from cardutil import iso8583
     from cardutil.config import config
-    cfgs = config['bit_config']
+    cfgs = cfg or config['bit_config']
     try:
         want, dontcare = ref.ref_decode(data, cfgs, enc, hexbm)
         rej = None
     except ref.RefError as e:
         want, dontcare, rej = None, False, str(e)
     try:
-        got = iso8583.loads(data, encoding=enc, hex_bitmap=hexbm)
+        got = iso8583.loads(data, encoding=enc, hex_bitmap=hexbm, iso_config=cfg)
     except iso8583.Iso8583DataError as e:
         if rej is None and not dontcare:
             return True, 'refused a well-framed message: %s' % e, 'C08/too-strict'
